@@ -177,7 +177,7 @@ func permPart(t *testing.T, run *ev.Run) {
 	if ev.Tier() == "thorough" {
 		// Before Domovoi the caller's manifest is read from ContractManagement
 		// instead of the executing context.
-		stages = append(stages, "Cockatrice", "none")
+		stages = append(stages, stagesBefore()...)
 	}
 	for _, st := range stages {
 		permStage(t, run, st)
@@ -277,7 +277,7 @@ func permStage(t *testing.T, run *ev.Run, stage string) {
 			callers = append(callers, c)
 		}
 	}
-	multi := ev.Pick(64, 600)
+	multi := ev.Pick(200, 2000)
 	for i := range multi {
 		n := 2
 		if i%3 == 2 {
@@ -401,6 +401,24 @@ func permStage(t *testing.T, run *ev.Run, stage string) {
 		kind   string
 	}
 	observed := map[obsKey]bool{}
+	var obsMu sync.Mutex
+	// observe returns the engine's answer for a cell (run on demand when the
+	// matrix pass was filtered by a replay).
+	observe := func(cl cell) bool {
+		k := obsKey{cl.caller.Name, cl.ci, cl.mi, cl.kind}
+		obsMu.Lock()
+		got, ok := observed[k]
+		obsMu.Unlock()
+		if ok {
+			return got
+		}
+		o, err := v.run(&invocation{Script: script(cl), EntryFlags: callflag.All})
+		got = err == nil && o.Halted
+		obsMu.Lock()
+		observed[k] = got
+		obsMu.Unlock()
+		return got
+	}
 	var judge func(cl cell, id string, halted bool, result int64, fault string, where string)
 	judge = func(cl cell, id string, halted bool, result int64, fault string, where string) {
 		callee, m := callees[cl.ci], calleeMethods[cl.mi]
@@ -414,7 +432,7 @@ func permStage(t *testing.T, run *ev.Run, stage string) {
 			var culprits []*callerSpec
 			for _, p := range cl.caller.Perms {
 				sc := single[[2]int{p.di, p.li}]
-				got := observed[obsKey{sc.Name, cl.ci, cl.mi, cl.kind}]
+				got := observe(cell{sc, cl.ci, cl.mi, cl.kind})
 				union = union || got
 				if w, _ := expect(cell{sc, cl.ci, cl.mi, cl.kind}); w != got {
 					culprits = append(culprits, sc)
@@ -422,11 +440,11 @@ func permStage(t *testing.T, run *ev.Run, stage string) {
 			}
 			if union == halted && len(culprits) > 0 {
 				for _, sc := range culprits {
-					judge(cell{sc, cl.ci, cl.mi, cl.kind}, id+"[as part of "+cl.caller.Name+"]", observed[obsKey{sc.Name, cl.ci, cl.mi, cl.kind}], result, fault, where)
+					judge(cell{sc, cl.ci, cl.mi, cl.kind}, id+"[as part of "+cl.caller.Name+"]", observe(cell{sc, cl.ci, cl.mi, cl.kind}), result, fault, where)
 				}
 				return
 			}
-			run.Violation(fmt.Sprintf("perm:permission-set-not-the-union-of-its-permissions:set-%v:union-%v", halted, union), id,
+			violation(stage, fmt.Sprintf("perm:permission-set-not-the-union-of-its-permissions:set-%v:union-%v", halted, union), id,
 				fmt.Sprintf("%s call %s -> %s.%s: halted=%v, reference=%v, union of the engine's answers for its single permissions=%v; shapes: %s", cl.kind, cl.caller.Name, callee.Name, m.Name, halted, want, union, shape),
 				map[string]any{"stage": stage, "caller_permissions": cl.caller.Perms, "callee": callee.Name, "callee_groups": callee.keys, "method": m.Name, "executed": where})
 			return
@@ -454,13 +472,20 @@ func permStage(t *testing.T, run *ev.Run, stage string) {
 			if len(near) > 0 {
 				sig = "perm:call-succeeded-without-matching-permission:contract-matched-by=" + strings.Join(near, ",") + ":method-not-in-its-list"
 			}
-			run.Violation(sig, id, fmt.Sprintf("%s call %s -> %s.%s HALTed (result %d) although no permission of the caller matches both the callee and the method; permission shapes: %s", cl.kind, cl.caller.Name, callee.Name, m.Name, result, shape), wit)
+			violation(stage, sig, id, fmt.Sprintf("%s call %s -> %s.%s HALTed (result %d) although no permission of the caller matches both the callee and the method; permission shapes: %s", cl.kind, cl.caller.Name, callee.Name, m.Name, result, shape), wit)
 		case !halted && want:
-			run.Violation("perm:call-failed-despite-matching-permission:"+shape, id,
+			violation(stage, "perm:call-failed-despite-matching-permission:"+shape, id,
 				fmt.Sprintf("%s call -> %s.%s FAULTed (%s) although a permission matches; shapes: %s", cl.kind, callee.Name, m.Name, fault, shape), wit)
 		case halted && result != m.Ret:
-			run.Violation("perm:wrong-callee-result", id, fmt.Sprintf("result %d, want %d", result, m.Ret), wit)
+			violation(stage, "perm:wrong-callee-result", id, fmt.Sprintf("result %d, want %d", result, m.Ret), wit)
 		}
+	}
+	cellID := func(cl cell) string {
+		cn := "entry"
+		if cl.caller != nil {
+			cn = cl.caller.Name
+		}
+		return fmt.Sprintf("perm/%s/%s/%s->%s.%s", stage, cl.kind, cn, callees[cl.ci].Name, calleeMethods[cl.mi].Name)
 	}
 	var mu sync.Mutex
 	shapesSeen := map[string]int{}
@@ -486,7 +511,7 @@ func permStage(t *testing.T, run *ev.Run, stage string) {
 		s := script(cl)
 		o, err := v.run(&invocation{Script: s, EntryFlags: callflag.All})
 		if err != nil {
-			run.Violation("panic-escaped-vm:perm", id, err.Error(), map[string]any{"script": hex.EncodeToString(s)})
+			violation(stage, "panic-escaped-vm:perm", id, err.Error(), map[string]any{"script": hex.EncodeToString(s)})
 			return
 		}
 		var res int64 = -1
@@ -515,8 +540,10 @@ func permStage(t *testing.T, run *ev.Run, stage string) {
 		mu.Lock()
 		shapesSeen[shape]++
 		mu.Unlock()
-		mu.Lock()
+		obsMu.Lock()
 		observed[obsKey{cn, cl.ci, cl.mi, cl.kind}] = o.Halted
+		obsMu.Unlock()
+		mu.Lock()
 		results[i] = cellResult{id, o.Halted, res, o.Fault, true}
 		mu.Unlock()
 		if i%211 == 0 {
@@ -534,7 +561,9 @@ func permStage(t *testing.T, run *ev.Run, stage string) {
 	var sample []cell
 	for i, cl := range cells {
 		if cl.caller != nil && len(cl.caller.Perms) <= 1 && cl.ci == 1 && cl.kind == "dyn" && cl.mi != 1 || i%97 == 0 {
-			sample = append(sample, cl)
+			if run.Want(cellID(cl)) {
+				sample = append(sample, cl)
+			}
 		}
 	}
 	user := neotest.Signer(v.user)
